@@ -155,6 +155,8 @@ def run(ctx):
         "H (SHA-256 over serde_json of the hash view) is injective — hypothesis of every theorem, not an axiom",
         "interface-visible edits are drawn from a catalogue of 15 variants of items no dependent uses (signature, field, variant, trait method, impl, item added/removed, return type, inherent impl, and four pairs that differ only in the ORDER of struct fields, enum variants, trait methods, parameter types)",
         "an artefact is corrupted in at most one field between two rewrites",
+        "graphs: 7 fixed ones; every labelled import graph over Main + 3 packages (cat:names: 25 DAGs x 8 import sets of Main, names on both sides of `Main` in sort order) and seeded samples over Main + 4 / + 5 packages (cat:names5/6), each with one edge-sweep history (every import edge q -> p in turn: q the only stale package, link refused; q rebuilt, link accepted; link inputs in dependency / reverse / name order); Main is never imported; beyond Main + 3 the graphs are sampled",
+        "the model-free `pinned-hash` oracle judges staleness from the hash identities printed by the builds themselves, on histories without hand-altered artefacts",
         "version fields are altered in both directions (`format_version`/`compiler_abi`: +1 / +6, and `.older`: the next smaller number) at top level of a core, inside its embedded interface and in an interface file; a consistently re-hashed interface of another version is tried for 7 (format_version, compiler_abi) pairs on either side of the current ones; in the `cat:iface-read` / `cat:foreign` catalogues every direct dependent checks and builds against the altered file before anything rewrites it",
     ]
     tb = ["Lean 4 kernel", "axioms: " + ",".join(ctx.proof["axioms"] or ["none"]),
